@@ -46,6 +46,11 @@ def run_case(a):
     if o.returncode != 0:
         raise Broken("cli-observe failed: " + o.stderr[-2000:])
     rec = json.loads(o.stdout.strip().splitlines()[-1])
+    import re
+    m = re.search(r"\[WARNING\] \(largest\) deviation is larger than 1 tile pixel \(([0-9.]+) units\) on the deepest matrix \((\d+)\)", err)
+    rec["dev"]["warned"] = bool(m)
+    rec["dev"]["micro"] = int(round(float(m.group(1)) * 1e6)) if m else 0
+    rec["dev"]["matrix"] = int(m.group(2)) if m else -1
     rec["stderr_tail"] = err[-300:]
     rec["races"] = err.count("WARNING: DATA RACE")
     return rec
